@@ -399,9 +399,120 @@ def install(ex):
     I['_ZSt24__throw_out_of_range_fmtPKcz'] = _throw_std('_ZTISt12out_of_range')
     I['_ZSt20__throw_out_of_rangePKc'] = _throw_std('_ZTISt12out_of_range')
     install_gsl_error(ex)
+    install_string(ex)
 
 
 def install_gsl_error(ex):
     def h(ex_, st, args, ins, name):
         raise X.PathError('gsl-error', 'GSL range/size error (shim code %d): the real library aborts here' % args[0])
     ex.intr['__verif_gsl_error'] = h
+
+
+# ---------------------------------------------------------------------------------------- std::string (libstdc++ SSO layout)
+def _str_read(ex, st, this):
+    p = ex.load(st, this, L.I64)
+    n = ex.load(st, this + 8, L.I64)
+    if isinstance(p, Term) or isinstance(n, Term) or p is X.UNDEF or n is X.UNDEF:
+        raise X.ExecError('symbolic/uninitialised std::string')
+    data = bytearray()
+    for i in range(n):
+        b = ex.load(st, p + i, L.I8)
+        if isinstance(b, Term) or b is X.UNDEF:
+            raise X.ExecError('symbolic std::string contents')
+        data.append(b)
+    return p, n, bytes(data)
+
+
+def _str_write(ex, st, this, data, fresh=False):
+    n = len(data)
+    local = this + 16
+    if fresh:
+        cap = 15
+        p = local
+    else:
+        p = ex.load(st, this, L.I64)
+        cap = 15 if p == local else ex.load(st, this + 16, L.I64)
+    if n > cap:
+        newcap = max(n, 2 * cap)
+        o = st.heap_alloc(newcap + 1, 'new')
+        if not fresh and p != local:
+            old = st.find(p)
+            old.live = False
+            st.ledger.append(('free', 'new', p, old.size))
+        p = o.base
+        ex.store(st, this, L.I64, p)
+        ex.store(st, this + 16, L.I64, newcap)
+    elif fresh:
+        ex.store(st, this, L.I64, p)
+    for i, b in enumerate(data):
+        ex.store(st, p + i, L.I8, b)
+    ex.store(st, p + n, L.I8, 0)
+    ex.store(st, this + 8, L.I64, n)
+
+
+def install_string(ex):
+    I = ex.intr
+
+    def ctor_cstr(ex_, st, args, ins, name):
+        s = ex.read_cstr(st, args[1]).encode('latin1')
+        _str_write(ex, st, args[0], s, fresh=True)
+        return None
+    I['_ZNSt7__cxx1112basic_stringIcSt11char_traitsIcESaIcEEC2EPKcRKS3_'] = ctor_cstr
+    I['_ZNSt7__cxx1112basic_stringIcSt11char_traitsIcESaIcEEC1EPKcRKS3_'] = ctor_cstr
+
+    def compare(ex_, st, args, ins, name):
+        _, _, a = _str_read(ex, st, args[0])
+        b = ex.read_cstr(st, args[1]).encode('latin1')
+        r = (a > b) - (a < b)
+        return T.mask(r, 32)
+    I['_ZNKSt7__cxx1112basic_stringIcSt11char_traitsIcESaIcEE7compareEPKc'] = compare
+
+    def append(ex_, st, args, ins, name):
+        _, _, a = _str_read(ex, st, args[0])
+        add = bytes(ex.load(st, args[1] + i, L.I8) for i in range(args[2]))
+        _str_write(ex, st, args[0], a + add)
+        return args[0]
+    I['_ZNSt7__cxx1112basic_stringIcSt11char_traitsIcESaIcEE9_M_appendEPKcm'] = append
+
+    def replace(ex_, st, args, ins, name):
+        this, pos, len1, s, len2 = args
+        _, _, a = _str_read(ex, st, this)
+        new = bytes(ex.load(st, s + i, L.I8) for i in range(len2))
+        _str_write(ex, st, this, a[:pos] + new + a[pos + len1:])
+        return this
+    I['_ZNSt7__cxx1112basic_stringIcSt11char_traitsIcESaIcEE10_M_replaceEmmPKcm'] = replace
+
+    def construct_fill(ex_, st, args, ins, name):
+        this, n, c = args
+        _str_write(ex, st, this, bytes([c & 0xff]) * n, fresh=True)
+        return None
+    I['_ZNSt7__cxx1112basic_stringIcSt11char_traitsIcESaIcEE12_M_constructEmc'] = construct_fill
+
+    def create(ex_, st, args, ins, name):
+        # _M_create(size_type& capacity, size_type old_capacity) -> pointer
+        this, capref, oldcap = args
+        cap = ex.load(st, capref, L.I64)
+        if cap > oldcap and cap < 2 * oldcap:
+            cap = 2 * oldcap
+            ex.store(st, capref, L.I64, cap)
+        return st.heap_alloc(cap + 1, 'new').base
+    I['_ZNSt7__cxx1112basic_stringIcSt11char_traitsIcESaIcEE9_M_createERmm'] = create
+
+    def gsl_strerror(ex_, st, args, ins, name):
+        o = st.alloc(16, 'global', 'gsl_strerror', 'global')
+        for i, b in enumerate(b'gsl error\0'):
+            o.cells[i] = (1, b)
+        return o.base
+    I['gsl_strerror'] = gsl_strerror
+
+    # iostream: formatting is not the subject anywhere -> empty bodies (recorded as stubs)
+    def ret_arg0(ex_, st, args, ins, name):
+        return args[0]
+    for n in ('_ZNSo9_M_insertIdEERSoT_', '_ZSt16__ostream_insertIcSt11char_traitsIcEERSt13basic_ostreamIT_T0_ES6_PKS3_l',
+              '_ZNSo3putEc', '_ZNSo5flushEv', '_ZNSolsEi', '_ZNSolsEj', '_ZNSo9_M_insertImEERSoT_', '_ZNSo9_M_insertIlEERSoT_'):
+        I[n] = ret_arg0
+
+    def none(ex_, st, args, ins, name):
+        return None
+    for n in ('_ZNSt8ios_base4InitC1Ev', '_ZNSt8ios_base4InitD1Ev', '_ZNKSt5ctypeIcE13_M_widen_initEv'):
+        I[n] = none
